@@ -97,19 +97,19 @@ impl PartialDate {
 macro_rules! impl_with_fallback_method {
     ($method_name:ident, ( $(with_day: $day:ident)? ) $component_type:ty) => {
         pub(crate) fn $method_name(&self, fallback: &$component_type) -> TemporalResult<Self> {
-            let era = if let Some(era) = self.era {
-                Some(era)
-            } else {
-                let era = fallback.era();
-                era.map(|e| {
-                    TinyAsciiStr::<19>::try_from_utf8(e.as_bytes())
-                        .map_err(|e| TemporalError::general(format!("{e}")))
-                })
-                .transpose()?
-            };
-            let era_year = self
-                .era_year
-                .map_or_else(|| fallback.era_year(), |ey| Some(ey));
+            // CalendarMergeFields: what the record says about the year (a year, or an era and
+            // an era year) replaces all of what the receiver says about it; the receiver stands
+            // in with its era and era year, or with its year in a calendar without eras.
+            let (year, era, era_year) =
+                if self.year.is_some() || self.era.is_some() || self.era_year.is_some() {
+                    (self.year, self.era, self.era_year)
+                } else if let Some(era) = fallback.era() {
+                    let era = TinyAsciiStr::<19>::try_from_utf8(era.as_bytes())
+                        .map_err(|e| TemporalError::general(format!("{e}")))?;
+                    (None, Some(era), fallback.era_year())
+                } else {
+                    (Some(fallback.year()), None, None)
+                };
 
             let (month, month_code) = match (self.month, self.month_code) {
                 (Some(month), Some(mc)) => (Some(month), Some(mc)),
@@ -122,7 +122,7 @@ macro_rules! impl_with_fallback_method {
             };
             #[allow(clippy::needless_update)] {
                 Ok(Self {
-                    year: Some(self.year.unwrap_or(fallback.year())),
+                    year,
                     month,
                     month_code,
                     $($day: Some(self.day.unwrap_or(fallback.day().into())),)?
